@@ -248,7 +248,9 @@ let cyclic = Cc::new_cyclic(|weak| {
             panic!("Cannot create a new Cc while tracing!");
         }
 
-        let cc = Cc::new(NewCyclicWrapper::new());
+        // The (uninitialized) wrapper must be created only after the collection possibly started by Cc::new has completed:
+        // if that collection panics, dropping the wrapper while unwinding would drop an uninitialized T
+        let cc = Cc::new_with(NewCyclicWrapper::new);
 
         // Immediately call inner_ptr and forget the Cc instance. Having a Cc instance is dangerous, since:
         // 1. The strong count will become 0
